@@ -7,5 +7,5 @@ Extraction Language OCaml.
 Separate Extraction
   BinInt.Z.add BinInt.Z.mul BinInt.Z.opp BinInt.Z.div_eucl BinInt.Z.compare BinInt.Z.of_nat BinInt.Z.to_nat
   BinNat.N.add BinNat.N.mul BinNat.N.div_eucl BinInt.Z.of_N BinInt.Z.to_N
-  Push.init Push.step Push.run Push.hazard Push.is_timeout Push.run_avoiding Push.poll_result
+  Push.init Push.init_fixed Push.step Push.run Push.hazard Push.is_timeout Push.run_avoiding Push.poll_result
   Push.dmsgs Push.live Push.cacc Push.poll_active.
